@@ -254,7 +254,10 @@ class Verifier(ExprMixin, StmtMixin, CallMixin, LibMixin, SpecMixin):
         stmts = [n for n in ast.walk(fdef) if isinstance(n, ast.stmt)]
         stmts.sort(key=lambda n: (n.lineno, n.col_offset))
         for pattern, ordinal, code in specs:
-            if pattern.startswith("@assign:"):
+            if pattern.startswith("@augassign:"):
+                nm = pattern.split(":", 1)[1]
+                hits = [n for n in stmts if isinstance(n, ast.AugAssign) and isinstance(n.target, ast.Name) and n.target.id == nm]
+            elif pattern.startswith("@assign:"):
                 # anchored on the assigned name, so that an edit of the right-hand side is verified, not lost
                 nm = pattern.split(":", 1)[1]
                 hits = [n for n in stmts if isinstance(n, ast.Assign) and len(n.targets) == 1 and isinstance(n.targets[0], ast.Name) and n.targets[0].id == nm]
